@@ -246,7 +246,10 @@ func runC20(res *lp.Result) {
 					flat = append(flat, oa{o.name, a})
 				}
 			}
+			seqNo := 0
 			runSeq := func(seq []oa) {
+				seqNo++
+				encodeBetween := seqNo%2 == 0
 				f := frame.NewFrame(v, 1, m)
 				ask(fmt.Sprintf("c20 fnew %d %d", f.Header.Flags, f.Body.Message.GetOpCode()), showFrameC20(f))
 				var tr []string
@@ -263,6 +266,16 @@ func runC20(res *lp.Result) {
 					trace := fmt.Sprintf("v=%d kind=%s ops=[%s]", v, kind, strings.Join(tr, "; "))
 					ask("c20 "+s.n+" "+s.a, showFrameC20(f))
 					checkInv(f, isResp, trace)
+					if encodeBetween && rng.Intn(3) == 0 {
+						// the frame is SENT between two mutator calls (the object itself, not a copy — what the encode leaves in it, such
+						// as the computed body length, travels on into the calls that follow)
+						cd := codec
+						if f.Header.Flags.Contains(primitive.HeaderFlagCompressed) {
+							cd = lz4Codec
+						}
+						cd.EncodeFrame(f, io.Discard)
+						tr = append(tr, "(encoded)")
+					}
 					if !isResp {
 						if s.n == "freq" {
 							askedForTracing = s.a == "true"
